@@ -2,7 +2,7 @@
 From Coq Require Import List Arith Lia Bool String.
 Import ListNotations.
 From SP Require Import Skel Gen Expected ExpectedCones Slots Slots7 SlotsTop.
-From SP Require NetA NetSlots.
+From SP Require NetA NetSlots QueueCap.
 
 Theorem C07_code_conforms :
   skel_eqb skel_Workflow_IncConcurrentTasks exp_Workflow_IncConcurrentTasks
@@ -79,6 +79,22 @@ Proof.
   unfold NetA.step. rewrite C, R. simpl. eexists. split; [reflexivity|]. simpl. rewrite app_length. simpl. split; [lia|reflexivity].
 Qed.
 
+(* the same, on a model of one process's FIFO of started tasks and the slots alone (QueueCap): a formed task and a free slot
+   never wait for each other, whatever the FIFO holds ... *)
+Theorem C07_queue_work_conserving : forall (K : nat) (s : QueueCap.st), 0 < QueueCap.todo s -> 0 < QueueCap.free s ->
+  exists s1 s2, QueueCap.step K false s QueueCap.Spawn = Some s1
+                /\ QueueCap.step K false s1 (QueueCap.Acquire (List.length (QueueCap.fifo s))) = Some s2
+                /\ QueueCap.free s2 = QueueCap.free s - 1.
+Proof. exact QueueCap.uncapped_work_conserving. Qed.
+
+(* ... whereas a Run loop that stops accepting tasks while the FIFO is as long as the slot count (seeded changes C07h, C07i) idles
+   a slot: two slots, the oldest task running, the one behind it finished, a third formed -- nothing can start until the oldest ends *)
+Theorem C07_capped_queue_refuted :
+  let s := {| QueueCap.todo := 1; QueueCap.fifo := [QueueCap.Running; QueueCap.Finished]; QueueCap.free := 1 |} in
+  QueueCap.step 2 true s QueueCap.Spawn = None /\ QueueCap.step 2 true s QueueCap.Forward = None
+  /\ (forall i, QueueCap.step 2 true s (QueueCap.Acquire i) = None) /\ 0 < QueueCap.todo s /\ 0 < QueueCap.free s.
+Proof. exact QueueCap.capped_idles_a_slot. Qed.
+
 (* T1, call cones: every function of scipipe that the functions above can reach (calls and function values, interface calls
    resolved to every implementation) is one the models were compared with -- a helper that is new to the cone, or a new call
    of an old one, changes a list (the lists are regenerated from /repo on every run; ExpectedCones.v holds the accepted ones) *)
@@ -97,3 +113,5 @@ Print Assumptions C07_oversize_rejected_code.
 Print Assumptions C07_no_mutex_refuted.
 Print Assumptions C07_cone_conforms.
 Print Assumptions C07_spawn_never_waits_for_the_queue.
+Print Assumptions C07_queue_work_conserving.
+Print Assumptions C07_capped_queue_refuted.
